@@ -747,6 +747,9 @@ class Normalizer:
             fac, rest = _split_content(pe, lambda n: not _mentions(n, lvn))
             node = A("comp", a[0], self.freeze(a[1]), wrap(rest), *[self.freeze(x) for x in a[3:]])
             return p_had(fac, P_atom(node))
+        if op == "stack" and len(a) == 2 and isinstance(a[1], Term) and a[1].op == "argwhere" and len(a[1].args) == 2 and a[1].args[1] == ("rank", Term("const", Fraction(1))) and isinstance(a[0], Term) and a[0].op == "const" and a[0].args[0] == 0:
+            # np.concatenate(np.argwhere(m)) lists the indices of a 1-D mask: np.flatnonzero(m)
+            return self.nf(Term("nonzero1", a[1].args[0]))
         if op == "stack" and len(a) == 2 and isinstance(a[1], Term):
             pl = self.nf(a[1])
             if len(pl) == 1:
